@@ -493,6 +493,35 @@ def argv(opt, src):
         a.append('--list-tests')
     if opt.get('gc_after_test'):
         a.append('--gc-after-test')
+    if opt.get('color'):
+        a.append('-c')
     for x in opt.get('extra') or []:
         a.append(x)
     return a
+
+
+def split_defaults(tokens, rng, p=0.5):
+    """Move some option groups from the command line into the `defaults` list (which the
+    runner hands to its children as --default arguments).  Returns (defaults, args)."""
+    groups = []
+    i = 0
+    takes_value = {'--path', '--test-path', '-t', '-m', '--layer', '--repeat', '--shuffle-seed',
+                   '--ignore_dir', '--tests-pattern', '--test-file-pattern', '-s'}
+    while i < len(tokens):
+        if tokens[i] in takes_value and i + 1 < len(tokens):
+            groups.append(tokens[i:i + 2])
+            i += 2
+        else:
+            groups.append(tokens[i:i + 1])
+            i += 1
+    defaults, args = [], []
+    for g in groups:
+        # -j / --list-tests / --shuffle stay on the command line (they describe this run)
+        if g[0].startswith('-j') or g[0] in ('--list-tests', '--shuffle') \
+                or g[0].startswith('--shuffle-seed'):
+            args += g
+        elif rng.random() < p:
+            defaults += g
+        else:
+            args += g
+    return defaults, args
